@@ -154,3 +154,13 @@ impl ChainController {
         )
     }
 }
+
+#[cfg(feature = "verif-hooks")]
+impl ChainController {
+    /// verif-hooks: number of hashes in this node's `is_pending_verify` set (blocks handed to the
+    /// preload / verify threads whose verification has not finished); `None` until the
+    /// chain-service thread has started, and after it has stopped. Read-only.
+    pub fn verif_pending_len(&self) -> Option<usize> {
+        crate::verif_idle::pending_len(Arc::as_ptr(&self.orphan_block_broker) as usize)
+    }
+}
